@@ -101,7 +101,11 @@ class Layout:
     def __init__(self, rng, nl='\n', block=0.0, quoted=0.0, comments=0.0, pad=0.0, comma_after=0.5):
         self.rng, self.nl, self.block, self.quoted, self.comments, self.pad, self.comma_after = rng, nl, block, quoted, comments, pad, comma_after
 
+    in_block = False
+
     def sp(self, base=' '):
+        if self.in_block and self.rng.random() < 0.25:
+            return self.rng.choice([self.nl, self.nl + '  ', ' ' + self.nl, self.nl + self.nl + '\t'])    # a block annotation may run over several lines
         if self.rng.random() < self.pad:
             return self.rng.choice(['', ' ', '  ', '\t', '   '])
         return base
@@ -122,11 +126,14 @@ class Layout:
             return ''
         rules, note = ann
         body = ''
+        block = self.rng.random() < self.block
         if rules:
+            self.in_block = block and self.rng.random() < 0.5
             body = self.rv(('o', rules))
+            self.in_block = False
         if note:
             body += (self.sp(' ') + '-' + self.sp(' ') if rules else '') + note
-        if self.rng.random() < self.block:
+        if block:
             if note and self.rng.random() < 0.3:
                 body = body.replace(' ', self.nl + '   ', 1) if ' ' in note and not rules else body
             return self.sp(' ') + '/*' + self.sp(' ') + body + self.sp(' ') + '*/'
@@ -202,9 +209,9 @@ def gen_model(rng, depth=0, prop=False):
             rules = []
             c = rng.random()
             if c < 0.3:
-                rules = [('min', ('s', rng.choice(['-100', '-100.0', '-12345678901234567890'])))]
+                rules = [('min', ('s', rng.choice(['-100', '-100.0', '-12345678901234567890', '-3.50', '-100.500', '-4.000'])))]
                 if rng.random() < 0.5:
-                    rules.append(('max', ('s', rng.choice(['12345678901234567890', '12345678901234567891', '99999999999999999999.5']))))
+                    rules.append(('max', ('s', rng.choice(['12345678901234567890', '12345678901234567891', '99999999999999999999.5', '12345678901234567890.0', '99999999999999999999.50', '12345678901234567890.500']))))
                 if rng.random() < 0.3:
                     rules.insert(1, ('exclusiveMinimum', ('s', 'true')))
             elif c < 0.45:
